@@ -13,7 +13,7 @@ COUNT_BOUNDS = ["255", "256", "257", "65535", "65536", "65537"]
 
 def run(ctx):
     ctx.rule = ("MC: every value of 0..3 files (body lengths 0,1,4,5,33; ASCII and 2-byte Shift-JIS names), padded and "
-                "un-padded, every record permutation, 3 placements of bodies/Count/Info (+ unaligning lead gap), with and "
+                "un-padded, every record permutation, 4 placements of bodies/Count/Info (bodies first, count first, table between bodies, table first; + unaligning lead gaps), with and "
                 "without the extra labels real files carry; every planted error (no Count, no Info, record without name, "
                 "range past the end / starting past the end) on every record, and out-of-range offset / size WORDS across the u32 "
                 "range (far past the end, around 2^31, 2^32-0x61, the top 0x60 values that wrap into the zero header, sums "
@@ -26,9 +26,20 @@ def run(ctx):
                 "TLC decides conformance of the logged content and the allowed result. Non-trivial = at least one file "
                 "or a planted error.")
     binary = ctx.build("release", "mvh_cont")
-    actions = ["PickValue", "PickLayout", "PickError", "PickWordError"] + ([] if ctx.quick() else ["PickSeed", "StepSeed"])
-    cc.model_check(ctx, "MC_Arc3ds", actions)
+    actions = ["PickValue", "PickLayout", "PickError", "PickWordError", "PickOverlap"] + ([] if ctx.quick() else ["PickSeed", "StepSeed"])
+    if ctx.quick():
+        # TLC's -coverage instrumentation costs ~60 s on this model; in the quick tier the vacuity guard is taken
+        # from the generator run of the same next-state relation instead (every action leaves cases of its kinds)
+        ctx.tlc("MC_Arc3ds", "MC_Arc3ds.cfg", env=cc.env_of(ctx), workers=cc.WORKERS)
+    else:
+        cc.model_check(ctx, "MC_Arc3ds", actions)
     cases = cc.generate(ctx, "MC_Arc3ds", "Gen_Arc3ds.cfg")
+    by_action = {"PickLayout": {"none"}, "PickError": {"nocount", "noinfo", "noname", "end", "start"},
+                 "PickWordError": {"words", "wrapsum", "nameptr"}, "PickOverlap": {"overcount", "overfields"}}
+    seen = {c["kind"] for c in cases}
+    missing = [a for a, ks in by_action.items() if not ks <= seen]
+    if missing:
+        raise vlib.ToolError("vacuous model: actions left no generated case of every kind: %s" % missing)
     summ, mism, unb = cc.replay(ctx, binary, "arc-replay", cases, "arc")
     # both arithmetic regimes in both tiers: out-of-range 32-bit fields wrap in release and panic in checked
     checked = ctx.build("checked", "mvh_cont")
